@@ -21,13 +21,16 @@
   with BYMONTH) or the year (YEARLY without BYMONTH).  And `iter_eq_spec_yearly_easter_partial`: YEARLY with BYEASTER
   offsets −80..250 in 1583..4099, and `iter_eq_spec_yearly_weekno_partial`: YEARLY with BYWEEKNO on the
   complement of D-C01c (any week start, plain BYDAY and BYMONTHDAY allowed).  And `iter_eq_spec_hourly_partial` /
-  `iter_eq_spec_minutely_partial` / `iter_eq_spec_secondly_partial`: the three sub-daily frequencies
-  without BY lists at or above their own unit (HOURLY: no BYHOUR; MINUTELY: no BYHOUR / BYMINUTE; SECONDLY:
-  no BYHOUR / BYMINUTE / BYSECOND), through a refinement with skipping (one turn of the loop may pass over
-  several periods of the specification; `n` turns = the first `m` periods, `n ≤ m ≤ 24·n` resp. `1440·n`,
-  `86400·n`).  Missing: the sub-daily frequencies with those BY lists (the reachability loops
-  `__mod_distance` / `minutelyLoop` / `secondlyLoop` beyond their first pass are only proved monotone so
-  far), BYWEEKNO / BYEASTER for the other frequencies, and mixing nth BYDAY with BYMONTHDAY or plain BYDAY (outside D-C01a), BYWEEKNO with BYEASTER, nth BYDAY with either.  Everything else below — including
+  `iter_eq_spec_hourly_byhour_partial` / `iter_eq_spec_minutely_partial` / `iter_eq_spec_secondly_partial`: HOURLY
+  with or without BYHOUR (`mod_distance_least`: `__mod_distance` is exact), MINUTELY without BYHOUR (with or without BYMINUTE),
+  SECONDLY without BYHOUR / BYMINUTE / BYSECOND, through a refinement with skipping (one turn of the loop may
+  pass over several periods of the specification; `n` turns = the first `m` periods, `n ≤ m ≤ 24·n` resp.
+  `48·n`, `1440·n`, `86400·n`).  All of these are assembled in `iter_eq_spec_supported_partial` over the
+  decidable predicate `SupportedBy` (Spec/RRuleSupported.lean; driver op `rrule.supported`).
+  Missing: MINUTELY with BYHOUR and SECONDLY with BYHOUR / BYMINUTE / BYSECOND (the reachability
+  loops `minutelyLoop` / `secondlyLoop` beyond their first pass are only proved monotone), BYWEEKNO / BYEASTER
+  for the other frequencies, nth BYDAY with plain BYDAY (all of it inside D-C01a), BYWEEKNO with BYEASTER or
+  nth BYDAY.  Everything else below — including
   `iter_strictMono` for all seven frequencies — is proved for ALL rules / all argument sets, with no
   `Supported` hypothesis (so also inside the known-defect classes).
 -/
@@ -45,6 +48,8 @@ import DateutilVerif.Proofs.RRuleEasterYearly
 import DateutilVerif.Proofs.RRuleWeeknoYearly
 import DateutilVerif.Proofs.RRuleOrig
 import DateutilVerif.Proofs.RRuleSecondly
+import DateutilVerif.Proofs.RRuleSupported
+import DateutilVerif.Proofs.RRuleAmbient
 
 namespace C01
 open RRule Cal RRule.Tables
@@ -200,6 +205,35 @@ theorem construct_origArgs (a : Args) (r : Rule) (h : construct a = .ok r) (hsp 
 example : (do let r ← construct { freq := 3, dtstart := ⟨2000, 1, 1, 0, 0, 0, 0⟩, bysetpos := some [] }
               let r' ← construct (origArgs { freq := 3, dtstart := ⟨2000, 1, 1, 0, 0, 0, 0⟩, bysetpos := some [] } r)
               pure (r.bysetpos, r'.bysetpos)) = .ok (some [], none) := by decide +kernel
+
+/-- **the ambient first weekday is an input only when `wkst` is not supplied.**  `constructW k a` is
+    `rrule.__init__` while `calendar.firstweekday()` is `k` (process-wide, `calendar.setfirstweekday`);
+    `construct` is the case `k = 0`, the interpreter's default.  With an explicit `wkst` — including `wkst=MO`
+    / `wkst=0` — the built rule, hence everything iterated from it, does not depend on `k`; without `wkst` the
+    week start is `k`.  (The per-run correspondence and oracle streams build rules under every `k = 0..6`.) -/
+theorem explicit_wkst_ignores_ambient (k : Int) (a : Args) :
+    (∀ w, a.wkst = some w → constructW k a = construct a) ∧
+    (a.wkst = none → constructW k a = construct { a with wkst := some k }) ∧
+    constructW 0 a = construct a :=
+  ⟨fun w h => constructW_explicit k a w h, constructW_none k a, constructW_zero a⟩
+
+/-- … and the exactness theorems hold under every ambient first weekday, read on the resolved arguments -/
+theorem iter_eq_spec_supported_ambient_partial (k : Int) (a : Args) (r : Rule) (h : constructW k a = .ok r) (f : Family)
+    (hs : SupportedBy (resolveW k a) f) (n : Nat) (hr : inRange (resolveW k a) f n) :
+    ∃ m, n ≤ m ∧ m ≤ f.periodsPerTurn * n ∧ (iter r n).1 = Spec.RRule.occ (resolveW k a) m :=
+  iter_eq_spec_supported_ambient k a r h f hs n hr
+
+/-- the integrator's example: WEEKLY, interval 2, TU+SU from Tue 1997-08-05, explicit `wkst=MO`, built while the
+    ambient first weekday is Sunday: the weeks still start on Monday -/
+example : (match constructW 6 { freq := 2, interval := 2, count := some 4, wkst := some 0,
+                                dtstart := ⟨1997, 8, 5, 9, 0, 0, 0⟩, byweekday := some [(1, 0), (6, 0)] } with
+           | .ok r => (iterDT r 4).1.map (fun (t : DT) => (t.m, t.d)) | .error _ => []) =
+    [(8, 5), (8, 10), (8, 19), (8, 24)] := by decide +kernel
+/-- … and without `wkst` they start on Sunday -/
+example : (match constructW 6 { freq := 2, interval := 2, count := some 4,
+                                dtstart := ⟨1997, 8, 5, 9, 0, 0, 0⟩, byweekday := some [(1, 0), (6, 0)] } with
+           | .ok r => (iterDT r 4).1.map (fun (t : DT) => (t.m, t.d)) | .error _ => []) =
+    [(8, 5), (8, 17), (8, 19), (8, 31)] := by decide +kernel
 
 /-! ### 3. every rule, every fuel: start / until / count, whole seconds -/
 
@@ -359,7 +393,7 @@ theorem iter_eq_spec_weekly_partial (a : Args) (r : Rule) (wa : WeeklyArgs a) (h
 /-- **`iter_eq_spec`, proved portion, MONTHLY with nth weekdays** ("the last Friday of every month",
     "the 2nd Tuesday every 3 months"): INTERVAL ≥ 1, valid start, BYDAY made of nth weekdays only (any
     magnitude, positive from the month's start, negative from its end), any BYMONTH / BYYEARDAY / BYHOUR /
-    BYMINUTE / BYSECOND / BYSETPOS, any COUNT / UNTIL, no BYMONTHDAY / BYWEEKNO / BYEASTER: exactly the
+    BYMINUTE / BYSECOND / BYSETPOS, any COUNT / UNTIL, no BYWEEKNO / BYEASTER (BYMONTHDAY without zeros allowed): exactly the
     specification's recurrence set.  (The nth-weekday mask with the D-C01b range guard, the filter with
     that mask, and `rebuild` succeeding for every month 0001-01 .. 9999-12 are part of the proof.) -/
 theorem iter_eq_spec_monthly_nth_partial (a : Args) (r : Rule) (na : NthMArgs a) (h : construct a = .ok r)
@@ -370,7 +404,7 @@ theorem iter_eq_spec_monthly_nth_partial (a : Args) (r : Rule) (na : NthMArgs a)
 /-- **`iter_eq_spec`, proved portion, YEARLY with nth weekdays counted inside the year** ("the 20th
     Monday of the year", "the last Sunday of the year"): INTERVAL ≥ 1, valid start, no BYMONTH, BYDAY made
     of nth weekdays only (any magnitude), any BYYEARDAY / BYHOUR / BYMINUTE / BYSECOND / BYSETPOS, any COUNT /
-    UNTIL, no BYMONTHDAY / BYWEEKNO / BYEASTER: exactly the specification's recurrence set. -/
+    UNTIL, no BYWEEKNO / BYEASTER (BYMONTHDAY without zeros allowed): exactly the specification's recurrence set. -/
 theorem iter_eq_spec_yearly_nth_partial (a : Args) (r : Rule) (na : NthYArgs a) (h : construct a = .ok r)
     (n : Nat) (hy : a.dtstart.y + n * a.interval ≤ 9999) :
     (iter r n).1 = Spec.RRule.occ a n :=
@@ -379,7 +413,7 @@ theorem iter_eq_spec_yearly_nth_partial (a : Args) (r : Rule) (na : NthYArgs a) 
 /-- **`iter_eq_spec`, proved portion, YEARLY with BYMONTH and nth weekdays counted inside each listed
     month** ("the 4th Thursday of November", "the last Monday of May"): INTERVAL ≥ 1, valid start, BYMONTH
     with members 1..12, BYDAY made of nth weekdays only, any BYYEARDAY / BYHOUR / BYMINUTE / BYSECOND /
-    BYSETPOS, any COUNT / UNTIL, no BYMONTHDAY / BYWEEKNO / BYEASTER: exactly the specification's set. -/
+    BYSETPOS, any COUNT / UNTIL, no BYWEEKNO / BYEASTER (BYMONTHDAY without zeros allowed): exactly the specification's set. -/
 theorem iter_eq_spec_yearly_bymonth_nth_partial (a : Args) (r : Rule) (na : NthYMArgs a) (h : construct a = .ok r)
     (n : Nat) (hy : a.dtstart.y + n * a.interval ≤ 9999) :
     (iter r n).1 = Spec.RRule.occ a n :=
@@ -433,6 +467,63 @@ theorem iter_eq_spec_secondly_partial (a : Args) (r : Rule) (sa : SecondlyArgs a
     ∃ m, n ≤ m ∧ m ≤ 86400 * n ∧ (iter r n).1 = Spec.RRule.occ a m :=
   iter_eq_spec_secondly sa h n hle
 
+/-- **`__mod_distance`, exactly**: from `v` the loop visits `(v + t·interval) mod base` for `t = 1, 2, …, n` and
+    returns at the LEAST `t` whose value is listed, with the carry `(v + t·interval) div base`; it falls off the
+    loop (Python `None`, a `TypeError` at the unpacking) iff none of the `n` values is listed. -/
+theorem mod_distance_least (interval : Int) (byxxx : List Int) (base : Int) (hb : 0 < base) (n : Nat) (acc v : Int) :
+    (∃ s : Nat, 1 ≤ s ∧ s ≤ n ∧ byxxx.contains ((v + s * interval) % base) = true ∧
+      (∀ t : Nat, 1 ≤ t → t < s → byxxx.contains ((v + t * interval) % base) = false) ∧
+      modDistance interval byxxx base n acc v =
+        some (acc + (v + s * interval) / base, (v + s * interval) % base)) ∨
+    ((∀ t : Nat, 1 ≤ t → t ≤ n → byxxx.contains ((v + t * interval) % base) = false) ∧
+      modDistance interval byxxx base n acc v = none) :=
+  modDistance_exact interval byxxx base hb n acc v
+
+/-- … and for hours that passed `__construct_byset` there always is one: from any `W`, a target `x ∈ 0..23`
+    congruent to `W` modulo gcd(interval, 24) is reached within 24 steps -/
+theorem mod_distance_reaches_hour (interval W x : Int) (hx : 0 ≤ x ∧ x ≤ 23)
+    (hg : (x - W) % ((Int.gcd interval 24 : Nat) : Int) = 0) :
+    ∃ s : Nat, 1 ≤ s ∧ s ≤ 24 ∧ (W + (s : Int) * interval) % 24 = x :=
+  reach24 interval W x hx hg
+
+/-- **`iter_eq_spec`, proved portion, HOURLY with BYHOUR** (members 0..23): as `iter_eq_spec_hourly_partial`;
+    a turn moves to the least listed hour of the grid (`mod_distance_least`, at most 24 steps) after the optional
+    jump over a removed day, so `n` turns correspond to `m` periods with `n ≤ m ≤ 48·n`; the grid hours
+    passed over are unlisted or lie on the removed day and select nothing. -/
+theorem iter_eq_spec_hourly_byhour_partial (a : Args) (r : Rule) (ha : HourlyByArgs a) (h : construct a = .ok r) (n : Nat)
+    (hle : Spec.RRule.startOrd a * 24 + a.dtstart.hh + (48 * n + 24) * a.interval + 23 < (maxOrdinal + 1) * 24) :
+    ∃ m, n ≤ m ∧ m ≤ 48 * n ∧ (iter r n).1 = Spec.RRule.occ a m :=
+  iter_eq_spec_hourly_byhour ha h n hle
+
+/-- **`iter_eq_spec`, proved portion, MINUTELY with BYMINUTE** (members 0..59, no BYHOUR): as
+    `iter_eq_spec_hourly_byhour_partial` one unit down (`minutelyLoop` succeeds on its first pass, at the least
+    listed minute of the grid, at most 60 steps); `n ≤ m ≤ 1500·n`. -/
+theorem iter_eq_spec_minutely_byminute_partial (a : Args) (r : Rule) (ma : MinutelyByArgs a) (h : construct a = .ok r)
+    (n : Nat)
+    (hle : (Spec.RRule.startOrd a * 24 + a.dtstart.hh) * 60 + a.dtstart.mm + (1500 * n + 60) * a.interval + 1439 <
+      (maxOrdinal + 1) * 1440) :
+    ∃ m, n ≤ m ∧ m ≤ 1500 * n ∧ (iter r n).1 = Spec.RRule.occ a m :=
+  iter_eq_spec_minutely_byminute ma h n hle
+
+/-- **`iter_eq_spec` for every supported argument set** — the summary of the family theorems above.
+    `SupportedBy a f` (Spec/RRuleSupported.lean) is a decidable condition on the arguments alone, the union of
+    the proved families: DAILY, WEEKLY (BYSETPOS only with the start on the week start = outside D-C01e),
+    YEARLY / MONTHLY with plain BYDAY, MONTHLY / YEARLY / YEARLY+BYMONTH with nth BYDAY only (= outside D-C01a),
+    YEARLY with BYEASTER −80..250 (outside D-C01d), YEARLY with BYWEEKNO outside D-C01c, HOURLY with or
+    without BYHOUR, MINUTELY without BYHOUR (with or without BYMINUTE), SECONDLY without BYHOUR / BYMINUTE / BYSECOND; always
+    INTERVAL ≥ 1, a valid start, no zero in BYMONTHDAY.  `inRange` keeps the first `n` turns inside
+    datetime's range.  `m = n` for the calendar frequencies.  The driver op `rrule.supported` evaluates
+    `family`, so each run of the check records which share of its sampled rules is covered by this theorem
+    (`rules_under_exactness_theorem` in the evidence). -/
+theorem iter_eq_spec_supported_partial (a : Args) (r : Rule) (h : construct a = .ok r) (f : Family)
+    (hs : SupportedBy a f) (n : Nat) (hr : inRange a f n) :
+    ∃ m, n ≤ m ∧ m ≤ f.periodsPerTurn * n ∧ (iter r n).1 = Spec.RRule.occ a m :=
+  iter_eq_spec_supported a r h f hs n hr
+
+/-- the executable classifier is sound for it -/
+theorem family_is_supported (a : Args) (f : Family) (h : family a = some f) : SupportedBy a f :=
+  family_sound f h
+
 /-! ### non-vacuity and the known-finding witnesses reproduced by the model -/
 
 def dt (y m d : Int) (hh : Int := 0) (mm : Int := 0) (ss : Int := 0) : DT := { y, m, d, hh, mm, ss, us := 0 }
@@ -474,19 +565,23 @@ example : dates (construct { freq := 3, dtstart := dt 2024 2 28 9 30, interval :
 
 -- an NthMArgs instance: the last Friday of every month
 example : NthMArgs { freq := 1, dtstart := dt 2024 1 1 18, byweekday := some [(4, -1)] } :=
-  ⟨rfl, by decide, by decide, rfl, rfl, rfl, ⟨[(4, -1)], rfl, by decide, by decide⟩⟩
+  ⟨rfl, by decide, by decide, rfl, rfl, by intro x hx; simp at hx, ⟨[(4, -1)], rfl, by decide, by decide⟩⟩
+-- … with BYMONTHDAY: a Friday the 13th that is also the 2nd Friday of its month
+example : NthMArgs { freq := 1, dtstart := dt 2024 1 1 18, byweekday := some [(4, 2)], bymonthday := some [13] } :=
+  ⟨rfl, by decide, by decide, rfl, rfl, by decide, ⟨[(4, 2)], rfl, by decide, by decide⟩⟩
 example : dates (construct { freq := 1, dtstart := dt 2024 1 1 18, byweekday := some [(4, -1)] }) 3
     = [(2024, 1, 26), (2024, 2, 23), (2024, 3, 29)] := by decide +kernel
 
 -- an NthYArgs instance: the 20th Monday of every year (RFC 5545 example)
 example : NthYArgs { freq := 0, dtstart := dt 1997 5 19 9, byweekday := some [(0, 20)] } :=
-  ⟨rfl, by decide, by decide, rfl, rfl, rfl, rfl, ⟨[(0, 20)], rfl, by decide, by decide⟩⟩
+  ⟨rfl, by decide, by decide, rfl, rfl, by intro x hx; simp at hx, rfl, ⟨[(0, 20)], rfl, by decide, by decide⟩⟩
 example : dates (construct { freq := 0, dtstart := dt 1997 5 19 9, byweekday := some [(0, 20)] }) 3
     = [(1997, 5, 19), (1998, 5, 18), (1999, 5, 17)] := by decide +kernel
 
 -- an NthYMArgs instance: the 4th Thursday of November (US Thanksgiving)
 example : NthYMArgs { freq := 0, dtstart := dt 2024 1 1 12, bymonth := some [11], byweekday := some [(3, 4)] } :=
-  ⟨rfl, by decide, by decide, rfl, rfl, rfl, ⟨[11], rfl, by decide, by decide⟩, ⟨[(3, 4)], rfl, by decide, by decide⟩⟩
+  ⟨rfl, by decide, by decide, rfl, rfl, by intro x hx; simp at hx, ⟨[11], rfl, by decide, by decide⟩,
+   ⟨[(3, 4)], rfl, by decide, by decide⟩⟩
 example : dates (construct { freq := 0, dtstart := dt 2024 1 1 12, bymonth := some [11], byweekday := some [(3, 4)] }) 3
     = [(2024, 11, 28), (2025, 11, 27), (2026, 11, 26)] := by decide +kernel
 
@@ -527,6 +622,23 @@ example : MinutelyArgs { freq := 5, dtstart := dt 2024 2 28 23 30, interval := 9
   ⟨rfl, by decide, by decide, rfl, rfl, by intro x hx; simp at hx, rfl, rfl, by intro x hx; simp at hx⟩
 example : SecondlyArgs { freq := 6, dtstart := dt 2024 2 29 23 59 30, interval := 45, bymonthday := some [1] } :=
   ⟨rfl, by decide, by decide, rfl, rfl, by decide, rfl, rfl, rfl⟩
+
+-- an HourlyByArgs instance: every 7 hours, only at 9:00 and 17:00 (interval coprime to 24: every hour is reachable)
+example : HourlyByArgs { freq := 4, dtstart := dt 2024 1 1 9, interval := 7, byhour := some [9, 17] } :=
+  ⟨rfl, by decide, by decide, rfl, rfl, by intro x hx; simp at hx, ⟨[9, 17], rfl, by decide⟩,
+   by intro x hx; simp at hx, by intro x hx; simp at hx⟩
+example : ((match construct { freq := 4, dtstart := dt 2024 1 1 9, interval := 7, byhour := some [9, 17] } with
+            | .ok r => (iterDT r 4).1 | .error _ => []).map (fun (t : DT) => (t.d, t.hh))) =
+    [(1, 9), (3, 17), (8, 9), (10, 17)] := by decide +kernel
+-- a MinutelyByArgs instance: every 25 minutes, only at :00 and :30 (gcd(25, 60) = 5: both are reachable from :00)
+example : MinutelyByArgs { freq := 5, dtstart := dt 2024 1 1 9, interval := 25, byminute := some [0, 30] } :=
+  ⟨rfl, by decide, by decide, rfl, rfl, by intro x hx; simp at hx, rfl, ⟨[0, 30], rfl, by decide⟩,
+   by intro x hx; simp at hx⟩
+-- the classifier on three argument sets: a supported one, one inside D-C01a, one with BYHOUR under MINUTELY
+example : family { freq := 0, dtstart := dt 1997 5 12 9, byweekno := some [20], byweekday := some [(0, 0)] }
+    = some .yearlyWeekno := by decide +kernel
+example : family { freq := 1, dtstart := dt 2020 1 1 9, byweekday := some [(0, 0), (1, 1)] } = none := by decide +kernel
+example : family { freq := 5, dtstart := dt 2020 1 1 9, byhour := some [9] } = none := by decide +kernel
 
 -- D-C01a: MONTHLY with plain MO and nth TU(1): nothing in a whole year although the set has every Monday
 example : dates (construct { freq := 1, dtstart := dt 2020 1 1 9, byweekday := some [(0, 0), (1, 1)] }) 12 = [] := by
